@@ -248,7 +248,7 @@ def write_csv(data, filename, comment,
         # If compress argument, create a zip file
         arcname = str(PurePosixPath(filename))
         if compress:
-            arcname = filename.name
+            arcname = f"{filename.stem}.csv"
             archive = zipfile.ZipFile(filename_full, mode="w",
                                       compression=zipfile.ZIP_DEFLATED)
 
